@@ -11,15 +11,34 @@ REPO = os.environ.get('VSIM_REPO', '/repo')
 VERIF = os.path.dirname(os.path.dirname(os.path.abspath(__file__)))
 
 
-def ensure_env():
+def ensure_env(preload=False):
     """Re-exec once with a fixed PYTHONHASHSEED (DESIGN 2.1) and make sure
     asn1tools is the /repo working tree."""
 
     want = os.environ.get('VSIM_HASHSEED', '0')
+    env = dict(os.environ)
+    reexec = False
 
     if os.environ.get('PYTHONHASHSEED') != want:
-        env = dict(os.environ)
         env['PYTHONHASHSEED'] = want
+        reexec = True
+
+    if preload:
+        # The cache simulation runs every process under the libc
+        # interposer (disarmed until a compiler child arms it).
+        sys.path.insert(0, VERIF)
+
+        from vsim import build
+
+        shim = build.build_vshim()
+
+        if shim not in os.environ.get('LD_PRELOAD', '').split(':'):
+            env['LD_PRELOAD'] = ':'.join(
+                [shim] + [p for p in os.environ.get('LD_PRELOAD',
+                                                    '').split(':') if p])
+            reexec = True
+
+    if reexec:
         os.execve(sys.executable, [sys.executable] + sys.argv, env)
 
     if REPO not in sys.path:
